@@ -23,6 +23,7 @@ type Obligation struct {
 	Result SolverResult
 	Cover  bool // vacuity cover: expected sat/unknown
 	Static bool // decided syntactically (no SMT query)
+	Label  string // clause label (for hypothesis slicing)
 }
 
 type State struct {
@@ -111,6 +112,8 @@ type VC struct {
 	escapes  []string
 	monitorEntries map[string]*State
 	anchored map[*ast.CallExpr][]anchoredItem
+	anchoredNodes map[ast.Node][]anchoredItem
+	resultGoTypes []types.Type
 	lastLock *State
 	preEval  map[ast.Expr]Term
 }
@@ -685,13 +688,42 @@ const preamble = `(set-option :produce-models true)
 (assert (forall ((t Int)) (! (=> (not (= t 0)) (not (errIs 0 t))) :pattern ((errIs 0 t)))))
 `
 
-func (o *Obligation) Query() string {
+// tagHyp names a hypothesis (an assumed invariant) by a fresh Boolean whose definition is a tagged
+// command; a sliced query may leave such definitions out, which only weakens the hypotheses.
+func (vc *VC) tagHyp(label string, t Term) Term {
+	if t.S == "true" || t.S == "false" {
+		return t
+	}
+	h := vc.fresh("hyp", SBool)
+	vc.emit(";@hyp:" + label + "\n(assert (= " + h.S + " " + t.S + "))")
+	return h
+}
+
+func labelStem(l string) string {
+	if i := strings.IndexAny(l, "-"); i > 0 {
+		return l[:i]
+	}
+	return l
+}
+
+func (o *Obligation) Query() string { return o.QuerySliced("") }
+
+// QuerySliced: with keep != "", quantified tagged hypotheses whose label stem differs from keep
+// are dropped (sound: fewer assumptions).
+func (o *Obligation) QuerySliced(keep string) string {
 	if o.Static || o.vc == nil {
 		return "; decided without an SMT query: " + o.Src + "\n"
 	}
 	var b strings.Builder
 	b.WriteString(preamble)
 	for _, c := range o.vc.cmds[:o.NCmds] {
+		if keep != "" && strings.HasPrefix(c, ";@hyp:") {
+			nl := strings.Index(c, "\n")
+			lbl := c[6:nl]
+			if labelStem(lbl) != labelStem(keep) && (strings.Contains(c, "(forall ") || strings.Contains(c, "(exists ")) {
+				continue
+			}
+		}
 		b.WriteString(c)
 		b.WriteByte('\n')
 	}
